@@ -246,9 +246,19 @@ def judge_disable(src, subsets, col=None):
             if not S:
                 continue
             expected = [x for x in base if x[0] not in S]
-            for mech in ("settings", "config-top", "override"):
+            for mech in ("settings", "config-top", "override", "settings-over-override"):
                 try:
-                    if mech == "settings":
+                    if mech == "settings-over-override":
+                        # the command line / settings layer wins over a per-module override that sets the same
+                        # codes the other way
+                        path = os.path.join(d, "pyproject.toml")
+                        open(path, "w").write(toml_for(S, "pvmod_c11").replace(" = false", " = true"))
+                        got = render(check(src, settings={c: False for c in S}, config_file=__import__("pathlib").Path(path),
+                                           module_name="pvmod_c11"))
+                        expected_named = [x for x in render(check(src, module_name="pvmod_c11")) if x[0] not in S]
+                        if got == expected_named:
+                            got = expected
+                    elif mech == "settings":
                         got = render(check(src, settings={c: False for c in S}))
                     elif mech == "config-top":
                         path = os.path.join(d, "pyproject.toml")
